@@ -273,6 +273,17 @@ def run(ctx):
             s_ = nshow(x[1]) if x[0] == "bool" else ""
             return x[0] == "bool" and x[2] is True and "static:radicle::git::refs::storage::SIGREFS_BRANCH" in s_ and "::eq(" in s_ and "::next(" in s_
         skip = rules.edges_where(db, f, is_sigrefs_eq)
+        # the signed copy is consulted only for refs that are *not* the signed-refs branch: if a signed-refs blob lists
+        # `refs/rad/sigrefs` itself, that entry must stay in the copy and be reported as MissingRef — DataRefs::prepare_updates
+        # would otherwise force-move the remote's rad/sigrefs to the listed (possibly older) commit with Policy::Allow
+
+        def not_sigrefs(x):
+            s_ = nshow(x[1]) if x[0] == "bool" else ""
+            return x[0] == "bool" and x[2] is False and "static:radicle::git::refs::storage::SIGREFS_BRANCH" in s_ and "::eq(" in s_
+        okn_, aln_, badn_ = rules.dom_check(db, f, rmv, not_sigrefs)
+        ctx.check("dom:validate_remote:lookup-after-skip:%s" % tag, bool(okn_ and aln_),
+                  "the signed entry is consumed only for refs other than the signed-refs branch (a listed `refs/rad/sigrefs` stays behind and is "
+                  "reported missing instead of being force-applied)", rules.where(f, rmv[0]), detail={"path": list(badn_.values())[:1]}, fn=f)
         leak = _cycle_without(gf, first, set(rmv), [(a, b) for a, b, _ in skip])
         ctx.check("table:validate_remote:skip-only-sigrefs:%s" % tag, bool(skip) and not leak,
                   "the only stored ref not compared with the signed refs is the signed-refs branch itself", rules.where(f), fn=f)
@@ -373,6 +384,31 @@ def run(ctx):
     gp = graph(pu)
     okp = bool(si) and all(any(gp.dominates(s, bb) for s in si) for bb, j, k, ops in direct)
     ctx.check("pair:prepare_updates:signed-set", okp, "every signed ref name is recorded in the set that protects it from pruning", rules.where(pu), fn=pu)
+
+
+def sigrefs_entry_rule(ctx):
+    """Shared with C02 (no rewind of sigrefs): in every validate_remote implementation the signed copy is consulted only for
+    refs other than the signed-refs branch itself."""
+    db = ctx.db
+    n = 0
+    for f in db.find(r"ValidateRepository>::validate_remote$"):
+        if not rules.agg_sites(f, VAL):
+            continue
+        rmv = [bb for bb, t, c in db.calls(f) if (c.get("n") or "").endswith("BTreeMap::remove") and _recv_is_signed_copy(f, t)]
+        if not rmv:
+            continue
+        n += 1
+        tag = cfg.short(f["key"])
+
+        def not_sigrefs(x):
+            s_ = nshow(x[1]) if x[0] == "bool" else ""
+            return x[0] == "bool" and x[2] is False and "static:radicle::git::refs::storage::SIGREFS_BRANCH" in s_ and "::eq(" in s_
+        ok, al, bad = rules.dom_check(db, f, rmv, not_sigrefs)
+        ctx.check("dom:validate_remote:lookup-after-skip:%s" % tag, bool(ok and al),
+                  "a signed-refs blob that lists `refs/rad/sigrefs` itself is reported (MissingRef) rather than accepted: the entry is consumed only "
+                  "for refs other than the signed-refs branch — otherwise DataRefs::prepare_updates force-moves the remote's rad/sigrefs "
+                  "(Policy::Allow) to the listed, possibly older, commit", rules.where(f, rmv[0]), detail={"path": list(bad.values())[:1]}, fn=f)
+    ctx.floor("validate_remote:lookup", n, 2, "validate_remote implementations consulting the signed copy")
 
 
 def _recv_is_signed_copy(fn, t):
